@@ -1,4 +1,27 @@
 chk('C04', 'model_checking',
-    'explicit-state enumeration of the PRBS generator: for every order the whole cycle of 2^n-1 LFSR states is walked (literal period / ones / visited-bitmap count by the native companion model, order of x modulo the documented polynomial computed = 2^n-1), and the REAL PRBS is run over the whole period in one call for n in {7,9,11,15,20} (quick) plus 23 and, in 256 segments of 2^23 shifts chained through GF(2) jump-ahead checkpoints, all 2^31-1 states of PRBS31 (thorough; a run that does not fit its time budget reports the covered fraction and exhaustive=false); orders 23/31 in the quick tier: 64 x 2^16 consecutive states each from model checkpoints spread over the cycle. The call-level state machine (state --len--> bits,state) is executed from EVERY non-zero start state for n<=15 (quick) / n<=20 (thorough) and all sequences of 1..3 resumed calls over {1,2,3,n-1,n,n+1,2n+3}, every 2-split of 2n+3 and every 3-split of n+2 from every non-zero state of PRBS7/PRBS9 (64 states for the larger orders) are compared with the single call; seed residues / zero class / len / order validation alphabets exhaustively',
-    'orders 23 and 31 are enumerated completely on the implementation only in the thorough tier (quick: C model + conformance segments); histories are bounded to 3 calls, longer histories follow by induction from the exhaustively checked one-call relation only under the assumption that PRBS keeps no hidden state; the output type checks are limited to length, 0/1 values and an integer state',
-    'explicit-state walk of the real generator + bounded call-history exploration against an independent GF(2) reference (recurrence, companion matrix, polynomial order, native C walker)', 'DESIGN.md 5/C04')
+    'explicit-state enumeration of the PRBS generator. Model: for all 7 orders the whole cycle of 2^n-1 LFSR states is walked by a native '
+    'C walker (literal period, ones, visited bitmap - order 31 bitmap thorough only; 2.16e9 states) and the order of x modulo the '
+    'documented polynomial is computed = 2^n-1. Real PRBS: one call over the whole period for n in {7,9,11,15,20} (quick) + 23 and, in '
+    '256 segments of 2^23 shifts chained through jump-ahead checkpoints, all 2^31-1 states of PRBS31 (thorough, time-budgeted: a run that '
+    'does not fit reports the covered fraction and exhaustive=false; the last recorded run, on a loaded machine, covered 96 of 256 '
+    'segments); quick for orders 23/31: 64 x 2^16 consecutive states from checkpoints spread over the cycle (50 % / 0.2 %). Call-level '
+    'relation state --len--> (bits,state) from EVERY non-zero start state for n<=15 (quick) / n<=20 (thorough), 64 / 4096 states for the '
+    'larger orders, lengths {1,2,3,n-1,n,n+1,2n+3} and, for n<=9 from every state (n=11,15: 64 / 16 states), 9 lengths around 1, 2, 3 '
+    'periods. Histories: all sequences of 1..3 resumed calls over the 7 short lengths, every 2-split of 2n+3 and 3-split of n+2, all 81 '
+    '4-call sequences over {1,2,n+1} (+ 11 period-multiple sequences for n<=9), the returned state object fed back unchanged, from every '
+    'non-zero state of orders 7,9 (thorough + 11) and 64 / 256 states otherwise, against the single call (525..1031 sequences per state). '
+    'Seeds: 731 values (+-2^k, +-(2^k+-1) at every machine-word size, residues, zero class + warning). Forms: 2 575 cases - seed / len / '
+    'order as every numpy integer dtype at its limits and around 2^n, bool, integral floats, 0-d arrays (rejection accepted, a returned '
+    'sequence must be that of the integer value; the type return_seed hands out must work), call forms, 7 gv configurations. Validation: '
+    '2 376 cases (non-positive / non-int len, 59 + 16 unsupported orders, both, x seed x return_seed). quick 8 337 / thorough 14 106 '
+    'cases (quick: 2.05 M real calls). Shared call-history part: 2 calls x 3 grids',
+    'orders 23 and 31 are enumerated completely on the implementation only in the thorough tier and order 31 only when the time budget '
+    'allows (quick: C model + conformance segments); histories are bounded to 3 calls (4 over a 3-length alphabet) and start states are '
+    'complete only for n<=9 / n<=11; longer histories follow by induction from the one-call relation only under the assumption that PRBS '
+    'keeps no hidden state; the start-state sets of the larger orders are fixed patterns + jump-ahead samples, not exhaustive; default '
+    'len and default seed are not asserted; non-integral floats, str, list, 1-d arrays as seed are outside the statement; for typed '
+    'arguments the statement does not name, TypeError / ValueError / OverflowError count as a legitimate rejection; GF(2) algebra, numpy '
+    'and the C compiler are trusted',
+    'explicit-state walk of the real generator + bounded call-history exploration against an independent GF(2) reference (recurrence, '
+    'companion matrix, polynomial order, native C walker)',
+    'DESIGN.md 5/C04')
